@@ -6,7 +6,7 @@ EXPLANATION = ("For gix-pack's .idx and multi-pack-index code: layout constants 
                "the expected operator context (writer: `>` threshold and `|` high bit; readers: `&` and `^` high bit); every MIDX chunk id and "
                "both signatures are referenced by both the writer and the reader; both index kinds delegate lookup and prefix lookup to the one "
                "shared bisection in index::access. Both fan-out bisections start their lower bound at the constant 0 for first byte 0 "
-               "(shared rule with the commit-graph lookup). Agreement of bisection with a linear scan over all indices is not decided.")
+               "(shared rule with the commit-graph lookup). Every read of a fan-out table at `first byte - 1` anywhere in gix-pack lies behind a `!= 0` test. Agreement of bisection with a linear scan over all indices is not decided.")
 P = "gix_pack::"
 SPEC_INT = {"index::FAN_LEN": 256, "index::access::N32_SIZE": 4, "index::access::N64_SIZE": 8, "index::access::V1_HEADER_SIZE": 1024,
             "index::access::V2_HEADER_SIZE": 1032, "index::access::N32_HIGH_BIT": 1 << 31, "index::encode::HIGH_BIT": 1 << 31,
